@@ -182,8 +182,11 @@ Proof.
   assert (Hi : In i (dir_range up n)) by (rewrite E; left; reflexivity).
   apply in_dir_range in Hi. destruct up; cbn in Hi; lia.
 Qed.
+Lemma for_list_id_ext {S} (l : list Z) (body : Z -> S -> S) (s : S) :
+  (forall i t, body i t = t) -> for_list l body s = s.
+Proof. intros Hb. apply (for_list_inv (fun t => t = s)); [reflexivity|]. intros i t _ ->. apply Hb. Qed.
 Lemma for_list_id {S} (l : list Z) (s : S) : for_list l (fun _ t => t) s = s.
-Proof. apply (for_list_inv (fun t => t = s)); auto. Qed.
+Proof. apply for_list_id_ext. reflexivity. Qed.
 Lemma sweep2d_small {T} `{Num T} (tt : arr T) ttsgn slow dz dx zsi xsi zsa xsa vzero nz nx grad :
   nz <= 1 \/ nx <= 1 -> fst (sweep2d tt ttsgn slow dz dx zsi xsi zsa xsa vzero nz nx grad) = tt.
 Proof.
